@@ -854,7 +854,244 @@ func ruleLookupStateless(c *Ctx, names []string) {
 
 // ---------------------------------------------------------------------------
 // T.walker-lookup: the walker chooses the element for a tag by comparing the
-// element's own Index with the index read from the data.
+// element's own Index with the index read from the data; X.lookup.exhaustive:
+// and it gives up only after it has looked at every element. The scan may live
+// in the reader itself or in a helper it calls with the tag's index.
+
+type lookupCtx struct {
+	f     *ssa.Function
+	isIdx func(v ssa.Value) bool
+}
+
+func elementsElem(v ssa.Value) (base, idx ssa.Value, ok bool) {
+	ia, ok := v.(*ssa.IndexAddr)
+	if !ok {
+		return nil, nil, false
+	}
+	ld, ok := ia.X.(*ssa.UnOp)
+	if !ok {
+		return nil, nil, false
+	}
+	fa, ok := ld.X.(*ssa.FieldAddr)
+	if !ok || fieldName(fa) != "Elements" {
+		return nil, nil, false
+	}
+	return fa.X, ia.Index, true
+}
+
+func sameElementsElem(a, b ssa.Value) bool {
+	if a == b {
+		return true
+	}
+	ba, ia, ok1 := elementsElem(a)
+	bb, ib, ok2 := elementsElem(b)
+	if !ok1 || !ok2 || ba != bb {
+		return false
+	}
+	if ia == ib {
+		return true
+	}
+	ca, okA := ia.(*ssa.Const)
+	cb, okB := ib.(*ssa.Const)
+	return okA && okB && ca.Value != nil && cb.Value != nil && ca.Value.ExactString() == cb.Value.ExactString()
+}
+
+type idxCmp struct {
+	elem ssa.Value
+	blk  *ssa.BasicBlock // block reached when equal
+}
+
+func (lc *lookupCtx) comparisons() []idxCmp {
+	var cmps []idxCmp
+	for _, b := range lc.f.Blocks {
+		ifi, ok := b.Instrs[len(b.Instrs)-1].(*ssa.If)
+		if !ok {
+			continue
+		}
+		bo, ok := ifi.Cond.(*ssa.BinOp)
+		if !ok || (bo.Op != token.EQL && bo.Op != token.NEQ) {
+			continue
+		}
+		idxField := func(v ssa.Value) ssa.Value {
+			ld, ok := v.(*ssa.UnOp)
+			if !ok {
+				return nil
+			}
+			fa, ok := ld.X.(*ssa.FieldAddr)
+			if !ok || fieldName(fa) != "Index" {
+				return nil
+			}
+			return fa.X
+		}
+		var elem ssa.Value
+		if e := idxField(bo.X); e != nil && lc.isIdx(bo.Y) {
+			elem = e
+		} else if e := idxField(bo.Y); e != nil && lc.isIdx(bo.X) {
+			elem = e
+		}
+		if elem == nil {
+			continue
+		}
+		eq := b.Succs[0]
+		if bo.Op == token.NEQ {
+			eq = b.Succs[1]
+		}
+		cmps = append(cmps, idxCmp{elem, eq})
+	}
+	return cmps
+}
+
+// selected decides whether every non-nil value sel can hold (at block `at`) is an element of
+// d.Elements chosen where that element's Index equals the tag index.
+func (lc *lookupCtx) selected(sel ssa.Value, at *ssa.BasicBlock, depth int) (bool, string) {
+	cmps := lc.comparisons()
+	okAll, why := true, ""
+	seen := map[ssa.Value]bool{}
+	var leaves func(v ssa.Value, at *ssa.BasicBlock)
+	leaves = func(v ssa.Value, at *ssa.BasicBlock) {
+		if seen[v] {
+			return
+		}
+		seen[v] = true
+		switch x := v.(type) {
+		case *ssa.Phi:
+			for i, e := range x.Edges {
+				leaves(e, x.Block().Preds[i])
+			}
+			return
+		case *ssa.Const:
+			if x.IsNil() {
+				return // the "not found" value
+			}
+		case *ssa.Call:
+			// a lookup helper: a module function handed the tag index
+			cal := x.Common().StaticCallee()
+			if cal != nil && cal.Pkg != nil && inModule(cal.Pkg.Pkg) && depth < 2 && len(cal.Blocks) > 0 {
+				pi := -1
+				for i, a := range x.Common().Args {
+					if lc.isIdx(a) {
+						pi = i
+					}
+				}
+				if pi < 0 {
+					okAll, why = false, "the lookup helper "+cal.Name()+" is not given the tag's index"
+					return
+				}
+				prm := cal.Params[pi]
+				sub := &lookupCtx{f: cal, isIdx: func(v ssa.Value) bool {
+					if cv, ok := v.(*ssa.Convert); ok {
+						v = cv.X
+					}
+					return v == ssa.Value(prm)
+				}}
+				for _, b := range cal.Blocks {
+					if ret, ok := b.Instrs[len(b.Instrs)-1].(*ssa.Return); ok && len(ret.Results) == 1 {
+						if ok2, w := sub.selected(ret.Results[0], b, depth+1); !ok2 {
+							okAll, why = false, "in "+cal.Name()+": "+w
+						}
+					}
+				}
+				if ok2, w := sub.exhaustive(); !ok2 {
+					okAll, why = false, "in "+cal.Name()+": "+w
+				}
+				return
+			}
+		}
+		if _, _, ok := elementsElem(v); !ok {
+			okAll, why = false, "the element is not taken from d.Elements"
+			return
+		}
+		for _, cm := range cmps {
+			if sameElementsElem(cm.elem, v) && (cm.blk == at || cm.blk.Dominates(at)) && len(cm.blk.Preds) == 1 {
+				return
+			}
+		}
+		okAll, why = false, "no comparison of that element's Index with the tag's index controls its selection"
+	}
+	leaves(sel, at)
+	return okAll, why
+}
+
+// exhaustive: every loop that scans d.Elements is left only when it is exhausted or on the
+// found path (behind a successful Index comparison).
+func (lc *lookupCtx) exhaustive() (bool, string) {
+	cmps := lc.comparisons()
+	for h, body := range loopsOf(lc.f) {
+		scans := false
+		for bb := range body {
+			for _, in := range bb.Instrs {
+				if _, idx, ok := elementsElem(valueOf(in)); ok {
+					if phi, isPhi := idx.(*ssa.Phi); isPhi && phi.Block() == h {
+						scans = true
+					}
+					if bo, isBo := idx.(*ssa.BinOp); isBo {
+						if phi, isPhi := bo.X.(*ssa.Phi); isPhi && phi.Block() == h {
+							scans = true
+						}
+					}
+				}
+			}
+		}
+		if !scans {
+			continue
+		}
+		// only loops whose body holds an Index comparison are lookups
+		isLookup := false
+		for _, cm := range cmps {
+			for bb := range body {
+				for _, s := range bb.Succs {
+					if s == cm.blk {
+						isLookup = true
+					}
+				}
+			}
+		}
+		if !isLookup {
+			continue
+		}
+		for bb := range body {
+			for _, s := range bb.Succs {
+				if body[s] {
+					continue
+				}
+				if bb == h {
+					continue // exhausted
+				}
+				found := false
+				for _, cm := range cmps {
+					if cm.blk == s || cm.blk == bb || cm.blk.Dominates(bb) {
+						found = true
+					}
+				}
+				if !found {
+					return false, "the scan over d.Elements is abandoned before every element has been compared (an exit that is neither 'found' nor 'no more elements'): elements are in declaration order, so a later one can still match"
+				}
+			}
+		}
+	}
+	return true, ""
+}
+
+func valueOf(in ssa.Instruction) ssa.Value {
+	v, _ := in.(ssa.Value)
+	return v
+}
+
+func walkerTagIndex(v ssa.Value) bool {
+	if cv, ok := v.(*ssa.Convert); ok {
+		v = cv.X
+	}
+	ex, ok := v.(*ssa.Extract)
+	if !ok {
+		return false
+	}
+	call, ok := ex.Tuple.(*ssa.Call)
+	if !ok {
+		return false
+	}
+	cal := call.Common().StaticCallee()
+	return cal != nil && ssaFuncName(cal) == "plenccore.ReadTag" && ex.Index == 1
+}
 
 func ruleWalkerLookup(c *Ctx) {
 	p := c.P
@@ -864,93 +1101,8 @@ func ruleWalkerLookup(c *Ctx) {
 			c.Oblige("T.walker-lookup", false, token.NoPos, name, "function", "not found", nil)
 			continue
 		}
-		isTagIndex := func(v ssa.Value) bool {
-			if cv, ok := v.(*ssa.Convert); ok {
-				v = cv.X
-			}
-			ex, ok := v.(*ssa.Extract)
-			if !ok {
-				return false
-			}
-			call, ok := ex.Tuple.(*ssa.Call)
-			if !ok {
-				return false
-			}
-			cal := call.Common().StaticCallee()
-			return cal != nil && ssaFuncName(cal) == "plenccore.ReadTag" && ex.Index == 1
-		}
-		elemsOf := func(v ssa.Value) (ssa.Value, ssa.Value, bool) {
-			ia, ok := v.(*ssa.IndexAddr)
-			if !ok {
-				return nil, nil, false
-			}
-			ld, ok := ia.X.(*ssa.UnOp)
-			if !ok {
-				return nil, nil, false
-			}
-			fa, ok := ld.X.(*ssa.FieldAddr)
-			if !ok || fieldName(fa) != "Elements" {
-				return nil, nil, false
-			}
-			return fa.X, ia.Index, true
-		}
-		sameElem := func(a, b ssa.Value) bool {
-			if a == b {
-				return true
-			}
-			ba, ia, ok1 := elemsOf(a)
-			bb, ib, ok2 := elemsOf(b)
-			if !ok1 || !ok2 || ba != bb {
-				return false
-			}
-			if ia == ib {
-				return true
-			}
-			ca, okA := ia.(*ssa.Const)
-			cb, okB := ib.(*ssa.Const)
-			return okA && okB && ca.Value != nil && cb.Value != nil && ca.Value.ExactString() == cb.Value.ExactString()
-		}
-		// comparisons elem.Index == tag index
-		type cmp struct {
-			elem ssa.Value
-			blk  *ssa.BasicBlock // block reached when equal
-		}
-		var cmps []cmp
-		for _, b := range f.Blocks {
-			ifi, ok := b.Instrs[len(b.Instrs)-1].(*ssa.If)
-			if !ok {
-				continue
-			}
-			bo, ok := ifi.Cond.(*ssa.BinOp)
-			if !ok || (bo.Op != token.EQL && bo.Op != token.NEQ) {
-				continue
-			}
-			idxField := func(v ssa.Value) ssa.Value {
-				ld, ok := v.(*ssa.UnOp)
-				if !ok {
-					return nil
-				}
-				fa, ok := ld.X.(*ssa.FieldAddr)
-				if !ok || fieldName(fa) != "Index" {
-					return nil
-				}
-				return fa.X
-			}
-			var elem ssa.Value
-			if e := idxField(bo.X); e != nil && isTagIndex(bo.Y) {
-				elem = e
-			} else if e := idxField(bo.Y); e != nil && isTagIndex(bo.X) {
-				elem = e
-			}
-			if elem == nil {
-				continue
-			}
-			eq := b.Succs[0]
-			if bo.Op == token.NEQ {
-				eq = b.Succs[1]
-			}
-			cmps = append(cmps, cmp{elem, eq})
-		}
+		lc := &lookupCtx{f: f, isIdx: walkerTagIndex}
+		loops := loopsOf(f)
 		n := 0
 		for _, b := range f.Blocks {
 			for _, in := range b.Instrs {
@@ -964,7 +1116,7 @@ func ruleWalkerLookup(c *Ctx) {
 				}
 				// only reads of data just framed by a tag: inside the loop around ReadTag
 				inLoop := false
-				for _, bd := range loopsOf(f) {
+				for _, bd := range loops {
 					if bd[b] {
 						inLoop = true
 					}
@@ -973,39 +1125,7 @@ func ruleWalkerLookup(c *Ctx) {
 					continue
 				}
 				n++
-				sel := call.Common().Args[0]
-				okAll := true
-				why := ""
-				seen := map[ssa.Value]bool{}
-				var leaves func(v ssa.Value, at *ssa.BasicBlock)
-				leaves = func(v ssa.Value, at *ssa.BasicBlock) {
-					if seen[v] {
-						return
-					}
-					seen[v] = true
-					switch x := v.(type) {
-					case *ssa.Phi:
-						for i, e := range x.Edges {
-							leaves(e, x.Block().Preds[i])
-						}
-						return
-					case *ssa.Const:
-						if x.IsNil() {
-							return // the "not found" value; the nil test is X.nilderef's business
-						}
-					}
-					if _, _, ok := elemsOf(v); !ok {
-						okAll, why = false, "the element is not taken from d.Elements"
-						return
-					}
-					for _, cm := range cmps {
-						if sameElem(cm.elem, v) && (cm.blk == at || cm.blk.Dominates(at)) && len(cm.blk.Preds) == 1 {
-							return
-						}
-					}
-					okAll, why = false, "no comparison of that element's Index with the tag's index controls its selection"
-				}
-				leaves(sel, b)
+				okAll, why := lc.selected(call.Common().Args[0], b, 0)
 				msg := "descriptor elements are in declaration order, not index order: the walker must choose an element only where that element's own Index equals the index read from the data"
 				if !okAll {
 					msg += "; " + why
@@ -1016,8 +1136,11 @@ func ruleWalkerLookup(c *Ctx) {
 		if n == 0 {
 			c.Oblige("T.walker-lookup", false, f.Pos(), name, "element read in the field loop", "none found", nil)
 		}
+		okE, whyE := lc.exhaustive()
+		c.Oblige("X.lookup.exhaustive", okE, f.Pos(), name, "the element scan ends only when found or exhausted", "a field whose element is declared after a higher-indexed one must still be found"+map[bool]string{true: "", false: ": " + whyE}[okE], nil)
 	}
 	c.Floor("T.walker-lookup", 2)
+	c.Floor("X.lookup.exhaustive", 2)
 }
 
 // ---------------------------------------------------------------------------
